@@ -158,7 +158,11 @@ def run(spec, ctx):
                 f.write(e0.data)
             os.symlink(rng.choice(["real_%08X.pel" % eid, os.path.join(inbox, "real_%08X.pel" % eid), e0.path]),
                        os.path.join(inbox, "latest.pel"))
-            for target in ("inbox/latest.pel", "inbox/real_%08X.pel" % eid):
+            # file names that would also read as shell patterns, next to the files such patterns match
+            for nm in ("pel[1].bin", "pel1.bin", "p?l.bin", "pxl.bin", "all*.bin", "all-of-them.bin"):
+                with open(os.path.join(inbox, nm), "wb") as f:
+                    f.write(e0.data)
+            for target in ("inbox/pel[1].bin", "inbox/p?l.bin", "inbox/all*.bin", "inbox/latest.pel", "inbox/real_%08X.pel" % eid):
                 observe(ctx, d, ["-f", os.path.join(d.root, target), "-E", rng.choice(["-c", "--clean"])], "file_clean", target, i,
                         extra_roots=[outdir])
             import shutil as _sh
